@@ -28,6 +28,14 @@ CHANGE = {
     "C15-4B": ("vector<T> operator>> appends (reserve + push_back) instead of replacing the target's contents", "reading into a non-empty vector"),
     "C09-4A": ("Optional operator== compares the payloads whenever both sides agree on has_value(): two empty optionals compare dead storage", "both operands empty"),
     "C09-4B": ("Any::handle::isSameImpl uses static_cast instead of dynamic_cast: cross-type comparison reads the other payload as T", "two engaged Any of different types compared"),
+    "C04-5": ("std::less<vec_t<T,4>>: last tie-break guarded by y equality instead of z equality", "x,y equal, a.z > b.z, a.w < b.w"),
+    "C05-5": ("range_t::extend(range) re-uses the point overload twice: extending by an empty range yields the infinite range", "argument empty/inverted"),
+    "C06-5": ("slerp negates a for a negative dot product but keeps the old (negative) dot for the weights", "dot(a,b) < 0, 0 < t < 1"),
+    "C07-5": ("divRoundUp rewritten as (a-1)/b+1: wrong for a == 0", "a == 0, b >= 2"),
+    "C08-5": ("IntrusivePtr move constructor writes 'input = nullptr' (operator=(T*) -> refDec) instead of input.ptr = nullptr", "any move construction from a non-null handle"),
+    "C14-5": ("non-TBB alignedMalloc rounds the size up to the alignment with a wrapping add: sizes near SIZE_MAX become 0-byte blocks", "size > SIZE_MAX - align + 1"),
+    "C17-5": ("IndexShiftedArray3D::get drops the '+ size()' before the modulo: negative shifts clamp instead of wrapping", "negative shift component, query in the first |shift| cells"),
+    "C20-5": ("single-channel writeImage takes component N_COMP-1 (= 0) instead of PIXEL_COMP-1: writePGM emits the red byte", "PGM, pixel whose low byte differs from its high byte"),
     "C19-2": ("Observable::removeObserver erases from the found element to the end (find instead of remove)", ">= 2 observers, an earlier one destroyed, then the observable destroyed before a later one"),
     "C20-2": ("writePFM<vec3fa> walks the pixels with a stride of 3 floats instead of 4", "vec3fa images wider than one pixel"),
 }
